@@ -54,7 +54,13 @@ func conditioningMethodReturn(
 	for _, defineArgT := range defineArgTs {
 		if defineArgT.HasDefault() {
 			variants := methodT.GetVariants()
-			return &variants[len(removeBlockTypeArgs(evaluatedArgs))]
+
+			idx := len(removeBlockTypeArgs(evaluatedArgs))
+			if idx >= len(variants) {
+				return methodT
+			}
+
+			return &variants[idx]
 		}
 
 		if defineArgT.IsUnionType() {
@@ -168,7 +174,10 @@ func calculateExecutionType(
 
 	case base.BLOCK_RESULT_ARRAY:
 		blockT := m.parser.GetLastEvaluatedT()
-		blockResultT := blockT.GetVal().(*base.T)
+		blockResultT, ok := blockT.GetVal().(*base.T)
+		if !ok || blockResultT == nil {
+			return base.MakeAnyArray()
+		}
 
 		arrayT := base.MakeAnyArray()
 		arrayT.AppendArrayVariant(*blockResultT)
